@@ -607,7 +607,10 @@ impl MempoolModel {
                             violation = viol(
                                 "maintenance",
                                 "pending not affordable from the shown balance",
-                                format!("account {a:?} balances {have:?} but pending costs {total} of {asset}; {obs:?}"),
+                                format!(
+                                    "account {a:?} balances {:?} but pending costs {total} of {asset}; {obs:?}",
+                                    have.iter().map(|(k, v)| (k.to_string(), *v)).collect::<BTreeMap<_, _>>()
+                                ),
                             );
                             break;
                         }
